@@ -1,5 +1,6 @@
 import PkgModel.PyRt
 import PkgModel.PyRx
+import PkgModel.Repr
 /-!
 # PyX7 — run-time additions of the seventh translator round
 
@@ -10,35 +11,12 @@ import PkgModel.PyRx
 * bound methods obtained by reflection (`getattr(self, f"_compare_{…}")`) as values: an object `method` that knows the
   function's name and the receiver.
 -/
-namespace Py
-
-/-- two lower-case hex digits -/
-def hex2 (c : Nat) : Str :=
-  let d := fun (n : Nat) => if n < 10 then 48 + n else 87 + n
-  [d (c / 16 % 16), d (c % 16)]
-
-/-- one character inside `repr(str)` with quote `q`, for a code point below 128 -/
-def reprChar (q : Nat) (c : Nat) : Str :=
-  if c == q || c == 92 then [92, c]
-  else if c == 9 then [92, 116]
-  else if c == 10 then [92, 110]
-  else if c == 13 then [92, 114]
-  else if c < 32 || c == 127 then [92, 120] ++ hex2 c
-  else [c]
-
-/-- `repr(s)` of an ASCII `str`: single quotes unless the text has a single quote and no double quote -/
-def reprAscii (s : Str) : Str :=
-  let q := if s.contains 39 && !s.contains 34 then 34 else 39
-  q :: (s.flatMap (reprChar q)) ++ [q]
-
-end Py
-
 namespace PyRt
 open Py
 
 /-- `repr(v)` for the values an f-string of the selected functions formats with `!r` -/
 def repr : PyVal → M Str
-  | .str s => if s.all (· < 128) then pure (reprAscii s) else throw "PyRtUnsupported"
+  | .str s => if isAsciiStr s then pure (reprAscii s) else throw "PyRtUnsupported"
   | .int i => pure (if i < 0 then 45 :: dec i.natAbs else dec i.toNat)
   | .bool true => pure (ofString "True")
   | .bool false => pure (ofString "False")
